@@ -47,6 +47,15 @@ def get(prop):
     return CONFIG.get(prop.name, prop.default)
 
 def read_config(path, error_out=None):
+    # The file is optional: if it can't be read or decoded, carry on
+    # with the defaults.
+    try:
+        read_config_file(path, error_out)
+    except (OSError, UnicodeDecodeError):
+        if error_out:
+            print(f"WARNING: couldn't read config file '{path}'.", file=error_out)
+
+def read_config_file(path, error_out=None):
     global HAVE_READ
     HAVE_READ = True
     def printerr(s):
